@@ -51,6 +51,16 @@ func lockArrNames(g *Gen) []string {
 // lockOp applies a mutex operation to the ghost state.
 func (fr *Frame) lockOp(op string, mu string, h Heap) Heap {
 	g := fr.g
+	// sync.Mutex / sync.RWMutex are not reentrant: acquiring a lock this thread already holds blocks
+	// forever (Lock while read- or write-held; RLock while write-held)
+	if fr.curInstr != nil {
+		switch op {
+		case "Lock":
+			fr.oblig("lock", "locks", "lock_discipline", not(fr.lockHeld(mu, h, false)), "Lock of a mutex this thread already holds (self-deadlock)", fr.curInstr.Pos())
+		case "RLock":
+			fr.oblig("lock", "locks", "lock_discipline", not(fr.lockHeld(mu, h, true)), "RLock of a mutex this thread holds for writing (self-deadlock)", fr.curInstr.Pos())
+		}
+	}
 	nh := h.clone()
 	set := func(kind string, val string) {
 		n, s := g.lockArr(kind)
